@@ -225,6 +225,18 @@ def rfc6979_rows(ctx: Ctx):
             except Exception as e:  # noqa: BLE001
                 rows.append({"h": list(h), "x": list(priv), "calls": [], "k": [], "det": 0,
                              "exc": f"EXC:{type(e).__name__}:{e}"[:120]})
+        # the nonce computation as ecdsa_raw_sign itself performs it (same key and hash bytes, same five calls)
+        for h in hashes[:3] + hashes[-3:]:
+            rec.calls = []
+            try:
+                m.ecdsa_raw_sign(h, priv)
+                calls = rec.calls
+                rec.calls = []
+                rows.append({"h": list(h), "x": list(priv), "calls": calls,
+                             "k": calls[4]["out"] if len(calls) == 5 else [], "det": 1, "via": "ecdsa_raw_sign"})
+            except Exception as e:  # noqa: BLE001
+                rows.append({"h": list(h), "x": list(priv), "calls": [], "k": [], "det": 0, "via": "ecdsa_raw_sign",
+                             "exc": f"EXC:{type(e).__name__}:{e}"[:120]})
     return m, rows, sigs
 
 
